@@ -271,6 +271,32 @@ func runLocationHelpers(r *hutil.Rng, o *hutil.Out, tier string) {
 		emit(qCut, lines, map[string]any{"i": r.Below(5) - 1, "len": r.Below(5) - 1, "line": line, "col": r.Below(12) - 1, "end_col": r.Below(12) - 1})
 		emit(qSub, nil, map[string]any{"s": line, "off": r.Below(14) - 2, "len": r.Below(14) - 2})
 	}
+	// ---- in-domain block: well-formed, ordered locations (the premises of the in-file theorems)
+	wf := func(lines []string, minRow int) (string, int) {
+		row := minRow + r.Below(len(lines)-minRow+1)
+		er := row + r.Below(3)
+		c := 1 + r.Below(len(lines[row-1])+1)
+		ec := c + r.Below(6)
+		if er != row {
+			ec = 1 + r.Below(9)
+		}
+		return fmt.Sprintf("%d:%d:%d:%d", row, c, er, ec), row
+	}
+	for i := 0; i < n/2; i++ {
+		lines := linePool[2+r.Below(len(linePool)-2)]
+		a, ra := wf(lines, 1)
+		b, _ := wf(lines, ra)
+		na := map[string]any{"location": a, "type": "var", "value": "a"}
+		nb := map[string]any{"location": b, "type": "var", "value": "b"}
+		mid, _ := wf(lines, 1)
+		emit(qLoc, lines, map[string]any{"x": []any{na, nb}})
+		emit(qRLB, lines, map[string]any{"x": na, "y": nb})
+		emit(qRLB, lines, map[string]any{"x": a, "y": []any{nb}})
+		emit(qRFR, lines, map[string]any{"ref": []any{na, map[string]any{"location": mid}, nb}})
+		emit(qRFR, lines, map[string]any{"ref": []any{na}})
+		emit(qInf, lines, map[string]any{"expr": []any{map[string]any{"location": mid}, na, nb}})
+		emit(qInf, lines, map[string]any{"expr": []any{map[string]any{"location": mid}, na, map[string]any{"location": mid}, nb}})
+	}
 	// ---- the line table: roast's transform.ToAST is what pkg/linter feeds every file through
 	mod := ast.MustParseModule("package p\n")
 	contents := []string{"", "\n", "a", "a\n", "a\nb", "a\r\nb", "a\r\nb\r\n", "\r\n", "\r", "a\rb", "a\r\r\nb", "a\n\rb", "\r\n\r\n", "a\r\n\nb\n\r\n", "é\r\n日本\n", "\n\n\npackage p\r\n"}
